@@ -79,12 +79,13 @@ type Scenario struct {
 	NoInit   bool                   `json:"no_init,omitempty"`   // do not send initialize/initialized automatically
 	Folders  []string               `json:"folders,omitempty"`   // workspaceFolders (absolute paths)
 	FirstCfg bool                   `json:"first_cfg,omitempty"` // send the start-up didChangeConfiguration the server swallows
+	Eager    bool                   `json:"eager,omitempty"`     // the client does not wait after `initialized` (nor after its start-up configuration notification) before going on
 	// Plugin: the client names its installation directory (PluginPath, as the real VS Code client
 	// always does); the engine provides /plug/server/meta/*.lua there.  Only then does the server
 	// distinguish documents inside and outside the workspace.
-	Plugin bool `json:"plugin,omitempty"`
-	Ops      []Op                   `json:"ops"`
-	Sched    simrt.Config           `json:"sched"`
+	Plugin bool         `json:"plugin,omitempty"`
+	Ops    []Op         `json:"ops"`
+	Sched  simrt.Config `json:"sched"`
 	// Extra schedules for oracles that compare several runs of the same scenario (C09).
 	Scheds []simrt.Config `json:"scheds,omitempty"`
 	// Class expected on replay (filled in when a violation is written out).
